@@ -113,15 +113,28 @@ def fresh_copy(mido, f):
                          tracks=tracks)
 
 
-def make_search(mido, depth):
+def make_search(mido, depth, base=(0, 0)):
+    """base = (tracks, messages per track) of the file every history starts
+    from ((0, 0): the empty file)."""
     M, MM, MT = mido.Message, mido.MetaMessage, mido.MidiTrack
     counter = [0]
+    base = tuple(base)
 
     def note(t):
         return M('note_on', note=60, velocity=64, time=t)
 
     def build(hist):
         f = mido.MidiFile(type=1, ticks_per_beat=480)
+        for ti in range(base[0]):
+            tr = MT()
+            for pos in range(base[1]):
+                if pos % 50 == 0:
+                    tr.append(MM('set_tempo', tempo=400000 + 1000 * pos + ti,
+                                 time=pos % 3))
+                else:
+                    tr.append(M('note_on', note=pos % 128, velocity=1 + ti,
+                                time=(pos + ti) % 3))
+            f.tracks.append(tr)
         s = {'f': f}
         for op in hist:
             apply(s, op)
@@ -149,6 +162,11 @@ def make_search(mido, depth):
                 if hasattr(f.tracks[i][0], 'tempo'):
                     out.append(('set_tempo_value', i))
         out += [('obs', w) for w in OBS]
+        if base[0]:
+            # large files: the edits that keep the size, and all observations
+            drop = ('add_track_named', 'assign_tracks', 'type', 'append_track',
+                    'pop_track', 'del_track0', 'extend_msgs', 'append_pitch')
+            return [o for o in out if o[0] not in drop] + [('partial', 'iter', 2)]
         # an observation abandoned half-way (break out of iteration / play
         # after k messages) and a nested one
         out += [('partial', 'iter', 1), ('partial', 'iter', 2),
@@ -239,7 +257,8 @@ def make_search(mido, depth):
         fr = fresh_copy(mido, f)
         todo = [op[1]] if op[0] == 'obs' else []
         first = True
-        for what in todo + [w for w in OBS if w not in todo]:
+        probe = OBS if not base[0] else ('iter', 'length', 'merged')
+        for what in todo + [w for w in probe if w not in todo]:
             if op[0] == 'obs' and first:
                 got = obs
             else:
@@ -259,7 +278,7 @@ def make_search(mido, depth):
                     f'{_short(got)}; on a fresh file with the same contents = '
                     f'{_short(exp)}',
                     {'kind': 'history', 'ops': [list(o) for o in hist + (op,)],
-                     'observe': what})
+                     'observe': what, 'base': list(base)})
                 return
 
     def key(s):
@@ -268,7 +287,8 @@ def make_search(mido, depth):
 
     def expand(s, hist, op):
         f = s['f']
-        return len(f.tracks) <= 2 and all(len(t) <= 3 for t in f.tracks)
+        return len(f.tracks) <= base[0] + 2 and all(
+            len(t) <= base[1] + 3 for t in f.tracks)
 
     return Search(build, ops, apply, check, key, max_depth=depth,
                   expand=expand)
@@ -289,6 +309,16 @@ def run():
     srch = make_search(mido, depth)
     srch.run(rep.violation, procs=common.nproc())
     srch.fill(rep)
+    # the same from large files (caches that only switch on beyond a size)
+    bases = ((1, 600), (3, 200)) if not thorough else (
+        (1, 600), (3, 200), (2, 1100), (9, 70))
+    bdepth = 2
+    for base in bases:
+        s2 = make_search(mido, bdepth, base)
+        s2.run(rep.violation, procs=common.nproc())
+        s2.fill(rep)
+    rep.coverage['large_base_files'] = [list(b) for b in bases]
+    rep.coverage['large_base_depth'] = bdepth
     rep.coverage['bfs_depth'] = depth
     rep.coverage['exhaustive'] = True
     rep.coverage['rule'] = (
@@ -301,7 +331,9 @@ def run():
         f'observations {{list(f), f.length, f.merged_track, save bytes, '
         f'play on a fake clock, an iteration or play abandoned after 1-2 messages, length measured inside an iteration}}. After every step all five observations are '
         f'compared with those of MidiFile(type, ticks_per_beat, tracks=deep '
-        f'copy); exceptions compared by type')
+        f'copy); exceptions compared by type. The same to depth {bdepth} '
+        f'starting from files of {[list(b) for b in bases]} (tracks, messages '
+        f'per track)')
     rep.assumptions += ['one note/tempo value per edit kind']
     rep.require(srch.states > 300, f'only {srch.states} states')
     return rep
@@ -310,7 +342,7 @@ def run():
 def check_case(case):
     mido = common.import_mido()
     out = []
-    srch = make_search(mido, 99)
+    srch = make_search(mido, 99, case.get('base', (0, 0)))
     hist = tuple(tuple(o) for o in case['ops'])
     s = srch.build(hist[:-1])
     obs = srch.apply(s, hist[-1])
